@@ -6,10 +6,29 @@ def register(op):
     from dsdobjects import base_classes as bc
     from dsdobjects.singleton import clear_singletons
 
+    # classes derived from the library's: each has its own singleton registry, so an object of the derived class with the
+    # same canonical form (equal and of equal hash, `==` deliberately accepts any ReactionS / ComplexS) is a DISTINCT
+    # object with its own constant / concentration.  A conversion answers for the object it is asked of.
+    class TwinReaction(bc.ReactionS):
+        pass
+
+    class TwinReaction2(TwinReaction):
+        pass
+
+    class TwinComplex(bc.ComplexS):
+        pass
+
     def fresh():
-        for c in (bc.DomainS, bc.StrandS, bc.ComplexS, bc.MacrostateS, bc.ReactionS):
+        for c in (bc.DomainS, bc.StrandS, bc.ComplexS, bc.MacrostateS, bc.ReactionS, TwinReaction, TwinReaction2, TwinComplex):
             clear_singletons(c)
         gc.collect()
+
+    def twins(r, rs, p):
+        """the same reaction (reactants, products, type) in the derived classes"""
+        ts = [cls(rs, [p], r.rtype) for cls in (TwinReaction, TwinReaction2)]
+        if any(t is r for t in ts) or ts[0] is ts[1] or any(t != r or hash(t) != hash(r) for t in ts):
+            raise RuntimeError("harness: twin reactions are not distinct equal objects")
+        return ts
 
     def reaction(n):
         fresh()
@@ -42,6 +61,14 @@ def register(op):
             r0.rateformat(out)
         except Exception:
             pass
+        # ... nor whatever was converted for an EQUAL reaction of another class (same canonical form, own constant)
+        t1, t2 = twins(r, rs, p)
+        other = 11 if c != 11 else 13
+        try:
+            t1.rate_constant = (other, u)
+            t1.rateformat(out)
+        except Exception:
+            pass
         res = r.rateformat(out)
         if res[1] != out:
             raise RuntimeError("units not passed through")
@@ -53,6 +80,22 @@ def register(op):
         again = r.rateformat(out)
         if repr(again) != repr(res) or repr(r.rate_constant) != repr(stored):
             raise RuntimeError("rateformat is not repeatable or changes the stored constant")
+        # the twins in turn: the second twin carries r's constant and is converted after r and after the first twin
+        # (it must answer what r answered), the first twin still carries its own constant and answers as before
+        t2.rate_constant = (c, u)
+        if repr(t2.rateformat(out)) != repr(res):
+            raise RuntimeError("an equal reaction of a derived class with the same constant converts differently")
+        try:
+            first = t1.rateformat(out)
+        except Exception:
+            first = None
+        if first is not None:
+            lone = bc.ReactionS(rs, [p], "branch-3way")     # nothing equal to it was ever converted
+            lone.rate_constant = (other, u)
+            if repr(lone.rateformat(out)) != repr(first) or repr(t1.rate_constant) != repr(lone.rate_constant):
+                raise RuntimeError("the conversion of an equal reaction of a derived class depends on the other objects")
+        if repr(r.rateformat(out)) != repr(res) or repr(r.rate_constant) != repr(stored):
+            raise RuntimeError("rateformat of an equal reaction of another class changes this reaction's answer")
         return res[0]
 
     @op("rate_set_get")
@@ -69,6 +112,11 @@ def register(op):
             r.rate_constant = (c, u)
         else:
             r.rate_constant = tuple([c] * form)
+        # an equal reaction of a derived class gets another constant afterwards: each object keeps its own
+        t1, t2 = twins(r, rs, p)
+        t1.rate_constant = (5, "/uM/m")
+        if t1.rate_constant != (5, "/uM/m") or t2.rate_constant == (5, "/uM/m"):
+            raise RuntimeError("rate constants are shared between equal reactions of different classes")
         return list(r.rate_constant)
 
     @op("concentrationformat")
@@ -82,6 +130,15 @@ def register(op):
         try:
             y.concentration = (mode, 7 if v != 7 else 3, u)
             y.concentrationformat(out)
+        except Exception:
+            pass
+        # an EQUAL complex of a derived class (own registry, same canonical form and name) with another concentration
+        z = TwinComplex([d], ["."], name="X")
+        if z is x or z != x or hash(z) != hash(x):
+            raise RuntimeError("harness: twin complex is not a distinct equal object")
+        try:
+            z.concentration = (mode, 11 if v != 11 else 13, u)
+            z.concentrationformat(out)
         except Exception:
             pass
         res = x.concentrationformat(out)
